@@ -491,11 +491,12 @@ fn step2(w: &mut World, op: &R1Op, mut a: Args, before: Cost, dup: bool) -> Reso
             let id = need!(a.e(w, *i));
             let undefined = undefined_e(&w.es[&id]);
             let (va, ea, ca, pa) = w.owned(id, "scalar_mul_le");
-            let bytes = h32(h);
-            let n = (*nbits as usize).clamp(1, 256);
+            let mut bytes = simcore::digest::unhex(h).unwrap_or_default();
+            bytes.resize(66, 0);
+            let n = (*nbits as usize).clamp(1, 520);
             let mut bits = Vec::new();
             let mut all_const = true;
-            let mut masked = [0u8; 32];
+            let mut masked = [0u8; 66];
             for t in 0..n {
                 let bit = (bytes[t / 8] >> (t % 8)) & 1 == 1;
                 if bit {
